@@ -232,12 +232,13 @@ pub fn rdoc(r: &mut Rng, cfg: &DocCfg) -> RDoc {
     // object numbers
     let mut nums: Vec<u32> = vec![];
     let mut cur = 0u32;
+    let far_ok = r.chance(1, 12);
     for _ in 0..n {
         let gap = if cfg.sparse {
             match r.below(10) {
                 0 => 2 + r.below(5) as u32,
                 1 => 50 + r.below(500) as u32,
-                2 if r.chance(1, 4) => 70000 + r.below(100000) as u32,
+                2 if far_ok && r.chance(1, 4) => 70000 + r.below(100000) as u32,
                 _ => 1,
             }
         } else {
